@@ -572,12 +572,12 @@ pub fn run(args: &Args) -> i32 {
             CacheCfg::Custom(2, None, 15_000),
         ]
     };
-    let (depth, cap) = if quick { (4, 150_000) } else { (6, 2_500_000) };
+    let (depth, cap) = if quick { (5, 1_500_000) } else { (6, 2_500_000) };
     for v in &variants {
         bfs(args, &rep, *v, &uni, depth, cap, false);
     }
     // external writer + flush clause (staleness is allowed until the flush)
-    bfs(args, &rep, CacheCfg::Default, &uni, if quick { 4 } else { 5 }, cap, true);
+    bfs(args, &rep, CacheCfg::Default, &uni, 5, cap, true);
     rep.extra("alphabet", json!(alphabet(&uni, true).iter().map(show).collect::<Vec<_>>()));
     // concurrent part
     let bound = if quick { 2 } else { 3 };
